@@ -1,7 +1,7 @@
 (* C04 — SML print -> parse round trip (partial: the literal level is proved,
    the token and character levels are decided by correspondence and monitors). *)
 From Secs Require Import Ast FloatProofs Fill Msg WireSpec WireLemmas WireValues HeaderProofs WireEnc WireDec MsgProofs AstProofs FillProofs FillCompose.
-From Secs Require Import PrintProofs Lexer Parser SmlNumbers SmlProofs LexProofs ParseProofs OffsetProofs TokenProofs LexPrinted MsgRoundTrip.
+From Secs Require Import PrintProofs Lexer Parser SmlNumbers SmlProofs LexProofs ParseProofs OffsetProofs TokenProofs AsciiTokens TokenTrees LexPrinted AsciiLex LexTrees MsgRoundTrip.
 Open Scope Z_scope.
 
 (* integers are printed in decimal (FormatInt); scanning the printed form gives the value back *)
@@ -59,8 +59,10 @@ Theorem C04_leaf_item : forall floats rec_list k w xs st rest,
 Proof. exact leaf_item_parses_back. Qed.
 Print Assumptions C04_leaf_item.
 
-(* whole item trees made of lists, plain list variables and integer / unsigned /
-   binary / boolean value items, of any size and nesting: from the tokens of
+(* whole item trees made of lists, plain list variables, integer / unsigned /
+   binary / boolean value items, ASCII items (any characters: printable runs in
+   quotes, the others as 0xNN) and ASCII variables with their length
+   constraints, of any size and nesting: from the tokens of
    the printed form the parser rebuilds the same tree, reports nothing,
    consumes exactly those tokens and records exactly the tree's variables *)
 Theorem C04_item_tokens : forall floats t st rest,
@@ -106,8 +108,8 @@ Print Assumptions C04_print_parse.
 Theorem C04_text : forall fl ms, msgs_text fl ms = flat_map (fun m => render fl (msg_print m) ++ [x0a]) ms.
 Proof. reflexivity. Qed.
 
-(* C04_remaining: float items (their text is an oracle), ASCII items and
-   ellipses at the token and character levels, and the converse direction (fixed
+(* C04_remaining: float items (their text is an oracle) and ellipses at the
+   token and character levels, and the converse direction (fixed
    point of every accepted text) are not proved; they are decided on the library by the monitors of suite C04 (print
    -> parse -> compare, and the fixed point of every accepted text) and by the
    correspondence of printer, lexer and parser with the model. *)
